@@ -1148,6 +1148,8 @@ class Distributions(object):
 
         # overall scale of the weights (for scale-independent rejection below)
         wscale = 1 if self.weights is None else np.abs(self.weights).max()
+        if not (wscale > 0 and np.isfinite(wscale)):
+            wscale = 1
 
         def invn(P):
             C = np.zeros((self.N, self.N))
@@ -1172,9 +1174,11 @@ class Distributions(object):
             pc[pc == 0] = np.inf  # to obtain inv([[0]]) = [[0]]
             self.C = 1 / pc[:, :, None]  # (new dimension to make matrices)
         elif self.N == 2:
-            self.C = np.array([inv2(p) for p in pc])
+            # (scaled, so that the determinants do not under- or overflow
+            # for very small or large weights)
+            self.C = np.array([inv2(p / wscale) for p in pc]) / wscale
         elif self.N == 3:
-            self.C = np.array([inv3(p) for p in pc])
+            self.C = np.array([inv3(p / wscale) for p in pc]) / wscale
         else:
             self.C = np.array([invn(hankel(p[:self.N], p[self.N - 1:]))
                                for p in pc])
